@@ -242,11 +242,40 @@ func opJsonDec(p []string) string {
 		oracle = "viol:" + class
 	} else if serr == nil {
 		// encoding/json read a value; refmt must too, unless the number is outside refmt's 64-bit token range
-		if !containsBigNumber(sv) {
+		if !containsBigNumber(sv) && !textHasBigNumber(data) {
 			oracle = "viol:rejected-valid-json"
 		}
 	}
 	return fmt.Sprintf("I=%s n=%d O=%s", showDec(toks, rest, class), steps, oracle)
+}
+
+// textHasBigNumber looks at EVERY number of the first value in the text, also those that the decoded value no longer
+// shows because a later duplicate key replaced them.
+func textHasBigNumber(data []byte) bool {
+	d := stdjson.NewDecoder(bytes.NewReader(data))
+	d.UseNumber()
+	depth := 0
+	for {
+		t, err := d.Token()
+		if err != nil {
+			return false
+		}
+		switch x := t.(type) {
+		case stdjson.Delim:
+			if x == '{' || x == '[' {
+				depth++
+			} else {
+				depth--
+			}
+		case stdjson.Number:
+			if containsBigNumber(x) {
+				return true
+			}
+		}
+		if depth == 0 {
+			return false
+		}
+	}
 }
 
 // containsBigNumber: integer-syntax numbers outside [-2^63, 2^64-1] are documented as errors (pinned test).
